@@ -1,6 +1,72 @@
+"""Static obligations: rustc's trait solver (Send + Sync) and mechanical scans reported as assumptions."""
+import os, re
+import common
+from common import Undecided, VERIF, REPO
+
+
 def run(ctx, obls):
-    raise NotImplementedError
+    out = {}
+    for o in obls:
+        if o.id == "s_send_sync":
+            out[o.id] = _send_sync(ctx, o)
+        else:
+            raise Undecided("unknown static obligation %s" % o.id)
+    return out
+
+
+def _send_sync(ctx, o):
+    """Compile overlay/exec/send_sync.rs (cfg asefile_verif_sendsync): one `ok::<T>()` per public type.
+    E0277 about Send/Sync => the named obligation is violated; any other build error => undecided."""
+    scratch = ctx["scratch"]
+    env = {"RUSTFLAGS": "--cfg asefile_verif --cfg asefile_verif_sendsync",
+           "CARGO_TARGET_DIR": os.path.join(scratch.root, "target-sendsync")}
+    rc, txt, secs = common.run(["cargo", "check", "--offline", "--lib", "--tests", "--features", "utils"], cwd=scratch.repo, env=env, timeout=900)
+    oc = {"seconds": round(secs, 1), "backend": "rustc trait solver (cargo check)"}
+    if rc == 0:
+        oc["status"] = "discharged"
+        return oc
+    errs = [m.group(0) for m in re.finditer(r"^error(\[E\d+\])?:[^\n]*(\n[^\n]*){0,12}", txt, re.M)]
+    ss = [e for e in errs if re.search(r"cannot be (sent|shared) between threads safely", e)]
+    if ss and all("could not compile" in e or e in ss or "aborting due to" in e for e in errs):
+        first = ss[0]
+        oc.update({"status": "failed", "reason": "rustc: " + first.splitlines()[0], "failed_check": first[:1500], "input_found": False,
+                   "fingerprint": re.sub(r"\s+", " ", first.splitlines()[0])[:160], "verifier_output": "\n".join(ss)[:3000]})
+        return oc
+    oc.update({"status": "undecided", "reason": "cargo check failed for another reason: %s" % ("\n".join(errs[:2])[:800])})
+    return oc
+
+
+_SCAN = [("unsafe", r"\bunsafe\b"), ("static mut", r"\bstatic\s+mut\b"), ("thread_local", r"thread_local!"),
+         ("interior mutability (Cell/RefCell/OnceCell/Mutex/RwLock/Atomic*)", r"\b(RefCell|Cell<|OnceCell|OnceLock|Mutex|RwLock|Atomic[A-Z]\w*)"),
+         ("wrapping/unchecked arithmetic", r"\b(wrapping_|overflowing_|unchecked_)\w+")]
 
 
 def scan_assumptions():
-    return []
+    """Mechanical scans of /repo/src and of /verif, reported in every evidence file."""
+    res = []
+    src = os.path.join(REPO, "src")
+    for name, pat in _SCAN:
+        hits = []
+        for fn in sorted(os.listdir(src)):
+            if not fn.endswith(".rs") or fn == "tests.rs":
+                continue
+            for i, line in enumerate(open(os.path.join(src, fn), errors="replace"), 1):
+                code = line.split("//")[0]
+                if re.search(pat, code):
+                    hits.append("%s:%d" % (fn, i))
+        res.append("scan /repo/src for %s: %s" % (name, ", ".join(hits[:8]) if hits else "none"))
+    # assumption-introducing constructs in /verif
+    counts = {}
+    for root, dirs, files in os.walk(VERIF):
+        if ".git" in root or ".cache" in root or "replays" in root or "evidence" in root or "seeded" in root:
+            continue
+        for fn in files:
+            if not (fn.endswith(".rs") or fn.endswith(".py")) or fn == "static_engine.py":
+                continue
+            t = open(os.path.join(root, fn), errors="replace").read()
+            for k in ("external_body", "assume_specification", "kani::assume", "kani::stub", "admit(", "assume(false"):
+                n = t.count(k)
+                if n:
+                    counts[k] = counts.get(k, 0) + n
+    res.append("scan /verif for assumption-introducing constructs: %s" % ", ".join("%s x%d" % kv for kv in sorted(counts.items())))
+    return res
